@@ -510,12 +510,12 @@ func bundleWorldPhases(which string) []*fw.Phase {
 				if tier == "thorough" {
 					return 19683
 				}
-				return 2187 // every 9th world
+				return 6561 // every 3rd world
 			},
 			Run: func(env *fw.Env, idx int) fw.Result {
 				k := idx
 				if env.Quick() {
-					k = idx * 9
+					k = idx * 3
 				}
 				w := gen.SmallWorld(shape, k)
 				return bundleRun(which, env, &w, false)
@@ -525,7 +525,7 @@ func bundleWorldPhases(which string) []*fw.Phase {
 	s0, s1 := small(0), small(1)
 	random := &fw.Phase{
 		Name: "random-worlds",
-		N:    fw.Fixed(1500, 30000),
+		N:    fw.Fixed(5000, 30000),
 		Run: func(env *fw.Env, idx int) fw.Result {
 			r := env.Rand(idx)
 			w := gen.RandomWorld(r, gen.WorldOpts{MaxPkgs: 8, MaxReg: 3, MaxFinders: 3, MaxAdds: 5, Aliases: true, OddAddrs: r.Chance(1, 2)})
